@@ -98,6 +98,11 @@ func spec(nonce int) []byte {
 				// a schema with a pattern and no type, shared with a body schema (Dog.code)
 				map[string]any{"name": "c", "in": "query", "schema": map[string]any{"$ref": "#/components/schemas/Code"}}},
 			"responses": map[string]any{"default": map[string]any{"description": "d"}}}},
+		// a secured operation with a body: each alternative requirement looks at the request, body included
+		"/secure": map[string]any{"post": map[string]any{
+			"security":    []any{map[string]any{"key": []any{}}, map[string]any{"alt": []any{}}},
+			"requestBody": map[string]any{"required": true, "content": map[string]any{"application/json": map[string]any{"schema": map[string]any{"$ref": "#/components/schemas/Item"}}}},
+			"responses":   map[string]any{"200": map[string]any{"description": "ok"}}}},
 		// one schema behind a JSON and a multipart body; its additionalProperties schema has properties of its own
 		"/upload": map[string]any{"post": map[string]any{
 			"requestBody": map[string]any{"required": true, "content": map[string]any{
@@ -114,7 +119,8 @@ func spec(nonce int) []byte {
 		"Cat": map[string]any{"type": "object", "required": []any{"petType"}, "properties": map[string]any{"petType": map[string]any{"type": "string"}, "lives": map[string]any{"type": "integer", "maximum": 9}}},
 		"Form": map[string]any{"type": "object", "properties": map[string]any{"name": map[string]any{"type": "string"}},
 			"additionalProperties": map[string]any{"type": "object", "properties": map[string]any{"label": map[string]any{"type": "string"}}}}},
-		"headers": map[string]any{"Meta": map[string]any{"content": map[string]any{"application/json": map[string]any{"schema": map[string]any{"type": "object", "properties": map[string]any{"v": map[string]any{"type": "integer"}}}}}}}})
+		"securitySchemes": map[string]any{"key": map[string]any{"type": "apiKey", "name": "X-Key", "in": "header"}, "alt": map[string]any{"type": "http", "scheme": "bearer"}},
+		"headers":         map[string]any{"Meta": map[string]any{"content": map[string]any{"application/json": map[string]any{"schema": map[string]any{"type": "object", "properties": map[string]any{"v": map[string]any{"type": "integer"}}}}}}}})
 	b, _ := json.Marshal(doc)
 	return b
 }
@@ -272,6 +278,40 @@ func (w *world) run(op Op) string {
 			b, _ = io.ReadAll(req.Body)
 		}
 		return "request-valid:" + string(b) + "?" + req.URL.RawQuery
+	case "request-secured":
+		// the way a server hands a request over: a one-shot body, no GetBody
+		bs := w.bodies()
+		body := bs[op.Variant%len(bs)] + strings.Repeat(" ", op.Variant%17)
+		req, _ := http.NewRequest("POST", "http://localhost/secure", nil)
+		req.Body, req.ContentLength = io.NopCloser(strings.NewReader(body)), int64(len(body))
+		req.Header.Set("Content-Type", "application/json")
+		switch op.Variant % 4 {
+		case 0:
+			req.Header.Set("X-Key", "k")
+		case 1:
+			req.Header.Set("Authorization", "Bearer b") // the second alternative: the first one was tried and failed
+		}
+		route, pp, err := w.gmux.FindRoute(req)
+		if err != nil {
+			return "route-error"
+		}
+		opts := &openapi3filter.Options{MultiError: op.Variant%2 == 0, AuthenticationFunc: func(_ context.Context, ai *openapi3filter.AuthenticationInput) error {
+			r := ai.RequestValidationInput.Request
+			if ai.SecuritySchemeName == "key" && r.Header.Get("X-Key") == "k" || ai.SecuritySchemeName == "alt" && r.Header.Get("Authorization") == "Bearer b" {
+				return nil
+			}
+			return fmt.Errorf("denied")
+		}}
+		in := &openapi3filter.RequestValidationInput{Request: req, PathParams: pp, Route: route, Options: opts}
+		if err := openapi3filter.ValidateRequest(context.Background(), in); err != nil {
+			var b []byte
+			if req.Body != nil {
+				b, _ = io.ReadAll(req.Body)
+			}
+			return "secured-invalid:" + string(b)
+		}
+		b, _ := io.ReadAll(req.Body)
+		return "secured-valid:" + string(b)
 	case "response":
 		req := w.request(0)
 		if op.Variant%6 == 5 {
@@ -474,7 +514,7 @@ func trunc(s string) string {
 	return s
 }
 
-var opKinds = []string{"route-g", "route-l", "request", "request", "request-skip", "request-ci", "response", "visit", "visit-multi", "visit-req", "visit-ci", "gen", "match", "match", "visit-typed", "visit-pet"}
+var opKinds = []string{"route-g", "route-l", "request", "request", "request-skip", "request-ci", "request-secured", "request-secured", "response", "visit", "visit-multi", "visit-req", "visit-ci", "gen", "match", "match", "visit-typed", "visit-pet"}
 
 func caseInsensitive(expr string) (openapi3.RegexMatcher, error) {
 	return regexp.Compile("(?i)" + expr)
